@@ -1,3 +1,607 @@
-use vh::runner::Ctx;
+//! C07 — start-up: argv, environment, aux values delivered exactly in every link mode.
+//!
+//! Driver for the no-libc probe `probe-env` (see /verif/probes/env/src/main.rs for the wire format).
+//! Every case is executed on several builds of the probe (dynamic PIE / static / static PIE x
+//! debug / release) with raw argv/envp arrays handed to posix_spawn; what the probe echoes is
+//! compared with what was passed and with an explicit model of the environment lookup.
+use std::cell::RefCell;
+use std::time::Duration;
 
-pub fn run(_ctx: &Ctx) {}
+use vh::runner::{hash_of, CaseReport, CaseResult, Ctx, Failure};
+use vh::util::escape;
+
+mod gen;
+mod launch;
+use gen::{lookup_case, startup_case, Case, BUILD_CLASS, MODES};
+
+pub const SIG_PREFIX_VAR: &str = "env::var|wrong-entry|entry name is a proper prefix of the key";
+pub const SIG_PREFIX_VAR_UNIX: &str = "env::var_unix|wrong-entry|entry name is a proper prefix of the key";
+
+const AT_UID: u64 = 11;
+const AT_GID: u64 = 13;
+const AT_RANDOM: u64 = 25;
+const AT_EXECFN: u64 = 31;
+
+// ------------------------------------------------------------------------------------------
+// model of the environment lookup
+// ------------------------------------------------------------------------------------------
+
+/// (name, value) of an entry: the bytes before / after its first '='; entries without '=' have no name.
+pub fn split_entry(e: &[u8]) -> Option<(&[u8], &[u8])> {
+    e.iter().position(|&c| c == b'=').map(|p| (&e[..p], &e[p + 1..]))
+}
+
+/// The statement: value of the FIRST entry whose name equals the key exactly, missing otherwise.
+pub fn model_lookup<'a>(envp: &'a [Vec<u8>], key: &[u8]) -> Option<&'a [u8]> {
+    envp.iter().filter_map(|e| split_entry(e)).find(|(n, _)| *n == key).map(|(_, v)| v)
+}
+
+/// What a lookup that only tests `entry[common_prefix_len] == '='` would return, and whether the
+/// chosen entry's name is a proper prefix of the key (used only to NAME a mismatch, never to accept one).
+fn prefix_accepting_lookup<'a>(envp: &'a [Vec<u8>], key: &[u8]) -> Option<(&'a [u8], bool)> {
+    for e in envp {
+        let m = key.iter().zip(e.iter()).take_while(|(a, b)| a == b).count();
+        if m != 0 && e.get(m) == Some(&b'=') {
+            return Some((&e[m + 1..], m < key.len()));
+        }
+    }
+    None
+}
+
+#[derive(Debug, Clone, PartialEq, Eq)]
+pub enum Look {
+    Missing,
+    Value(Vec<u8>),
+    NotUnicode,
+    NotAsked,
+}
+
+impl Look {
+    fn kind(&self) -> &'static str {
+        match self {
+            Look::Missing => "Missing",
+            Look::Value(_) => "a value",
+            Look::NotUnicode => "NotUnicode",
+            Look::NotAsked => "not asked",
+        }
+    }
+    fn show(&self) -> String {
+        match self {
+            Look::Value(v) => format!("Ok(\"{}\")", escape(v)),
+            Look::Missing => "Err(Missing)".into(),
+            Look::NotUnicode => "Err(NotUnicode)".into(),
+            Look::NotAsked => "(not asked)".into(),
+        }
+    }
+}
+
+// ------------------------------------------------------------------------------------------
+// probe output
+// ------------------------------------------------------------------------------------------
+
+#[derive(Debug, Default)]
+pub struct Echo {
+    len_hint: u64,
+    args_os: Vec<Vec<u8>>,
+    args_os_n: u64,
+    args: Vec<Option<Vec<u8>>>,
+    args_n: u64,
+    lookups: Vec<(Vec<u8>, Look, Look)>,
+    uid: u64,
+    gid: u64,
+    random: Option<[u8; 16]>,
+    execfn: Option<Vec<u8>>,
+    auxv: Vec<u8>,
+    random_at: Option<[u8; 16]>,
+    execfn_at: Option<Vec<u8>>,
+    clock: [i64; 6],
+}
+
+fn u64le(b: &[u8]) -> Option<u64> {
+    Some(u64::from_le_bytes(b.try_into().ok()?))
+}
+
+fn look(b: &[u8]) -> Option<Look> {
+    match b.first()? {
+        0 => Some(Look::Missing),
+        1 => Some(Look::Value(b[1..].to_vec())),
+        2 => Some(Look::NotUnicode),
+        3 => Some(Look::NotAsked),
+        _ => None,
+    }
+}
+
+fn opt_bytes(b: &[u8]) -> Option<Option<Vec<u8>>> {
+    match b.first()? {
+        0 => Some(None),
+        1 => Some(Some(b[1..].to_vec())),
+        _ => None,
+    }
+}
+
+/// Parse the record stream; Err(description) when it is truncated or out of order.
+pub fn parse(out: &[u8]) -> Result<Echo, String> {
+    let mut recs: Vec<(u8, &[u8])> = Vec::new();
+    let mut p = 0usize;
+    while p < out.len() {
+        if p + 5 > out.len() {
+            return Err(format!("truncated record header at byte {p} of {}", out.len()));
+        }
+        let tag = out[p];
+        let len = u32::from_le_bytes(out[p + 1..p + 5].try_into().unwrap()) as usize;
+        p += 5;
+        if p + len > out.len() {
+            return Err(format!("truncated record '{}' ({} of {} payload bytes)", tag as char, out.len() - p, len));
+        }
+        recs.push((tag, &out[p..p + len]));
+        p += len;
+    }
+    if recs.last().map(|r| r.0) != Some(b'Z') {
+        return Err(format!("no end marker after {} records ({} bytes)", recs.len(), out.len()));
+    }
+    let mut e = Echo::default();
+    let mut it = recs.into_iter().peekable();
+    let bad = |what: &str| format!("malformed record stream: {what}");
+    let take = |it: &mut std::iter::Peekable<std::vec::IntoIter<(u8, &[u8])>>, tag: u8| -> Result<Vec<u8>, String> {
+        match it.next() {
+            Some((t, b)) if t == tag => Ok(b.to_vec()),
+            Some((t, _)) => Err(format!("malformed record stream: expected '{}' got '{}'", tag as char, t as char)),
+            None => Err(format!("malformed record stream: expected '{}' got end", tag as char)),
+        }
+    };
+    e.len_hint = u64le(&take(&mut it, b'C')?).ok_or_else(|| bad("C"))?;
+    while it.peek().map(|r| r.0) == Some(b'a') {
+        e.args_os.push(it.next().unwrap().1.to_vec());
+    }
+    e.args_os_n = u64le(&take(&mut it, b'n')?).ok_or_else(|| bad("n"))?;
+    while it.peek().map(|r| r.0) == Some(b's') {
+        e.args.push(opt_bytes(it.next().unwrap().1).ok_or_else(|| bad("s"))?);
+    }
+    e.args_n = u64le(&take(&mut it, b'm')?).ok_or_else(|| bad("m"))?;
+    while it.peek().map(|r| r.0) == Some(b'K') {
+        let k = it.next().unwrap().1.to_vec();
+        let u = look(&take(&mut it, b'u')?).ok_or_else(|| bad("u"))?;
+        let v = look(&take(&mut it, b'v')?).ok_or_else(|| bad("v"))?;
+        e.lookups.push((k, u, v));
+    }
+    e.uid = u64le(&take(&mut it, b'U')?).ok_or_else(|| bad("U"))?;
+    e.gid = u64le(&take(&mut it, b'G')?).ok_or_else(|| bad("G"))?;
+    e.random = match opt_bytes(&take(&mut it, b'R')?).ok_or_else(|| bad("R"))? {
+        None => None,
+        Some(b) => Some(b.as_slice().try_into().map_err(|_| bad("R length"))?),
+    };
+    e.execfn = opt_bytes(&take(&mut it, b'E')?).ok_or_else(|| bad("E"))?;
+    e.auxv = take(&mut it, b'X')?;
+    let r = take(&mut it, b'r')?;
+    e.random_at = if r.is_empty() { None } else { Some(r.as_slice().try_into().map_err(|_| bad("r length"))?) };
+    e.execfn_at = opt_bytes(&take(&mut it, b'e')?).ok_or_else(|| bad("e"))?;
+    let t = take(&mut it, b'T')?;
+    if t.len() != 48 {
+        return Err(bad("T length"));
+    }
+    for j in 0..6 {
+        e.clock[j] = i64::from_le_bytes(t[j * 8..j * 8 + 8].try_into().unwrap());
+    }
+    take(&mut it, b'Z')?;
+    Ok(e)
+}
+
+fn aux_value(auxv: &[u8], key: u64) -> Option<u64> {
+    let mut i = 0;
+    while i + 16 <= auxv.len() {
+        let k = u64::from_ne_bytes(auxv[i..i + 8].try_into().unwrap());
+        let v = u64::from_ne_bytes(auxv[i + 8..i + 16].try_into().unwrap());
+        if k == 0 {
+            return None;
+        }
+        if k == key {
+            return Some(v);
+        }
+        i += 16;
+    }
+    None
+}
+
+// ------------------------------------------------------------------------------------------
+// running and judging one case
+// ------------------------------------------------------------------------------------------
+
+#[derive(Clone, Copy, PartialEq, Eq)]
+pub enum Scope {
+    /// everything the probe echoes
+    All,
+    /// only `var` results (focused sub-check)
+    Var,
+    /// only `var_unix` results (focused sub-check)
+    VarUnix,
+}
+
+pub struct Env<'a> {
+    pub ctx: &'a Ctx,
+    pub probe_dir: String,
+    /// the driver may change the probe's uid/gid
+    pub root: bool,
+    /// signature this sub-check is shrinking towards (set at its first failure)
+    pub target: RefCell<Option<String>>,
+}
+
+fn probe_path(root: &str, mode: usize) -> String {
+    let m = MODES[mode];
+    let prof = if m.ends_with("debug") { "debug" } else { "release" };
+    format!("{root}/probes/target-{m}/x86_64-unknown-linux-gnu/{prof}/probe-env")
+}
+
+fn strip_nul(b: &[u8]) -> Vec<u8> {
+    b.iter().copied().filter(|&c| c != 0).collect()
+}
+
+/// Compare one lookup result with the model; push a failure when it differs.
+fn judge_lookup(api: &str, envp: &[Vec<u8>], key: &[u8], obs: &Look, is_str_api: bool, mode: &str, fails: &mut Vec<Failure>) {
+    let expected = match model_lookup(envp, key) {
+        None => Look::Missing,
+        Some(v) => {
+            if is_str_api && std::str::from_utf8(v).is_err() {
+                Look::NotUnicode
+            } else {
+                Look::Value(v.to_vec())
+            }
+        }
+    };
+    // var_unix hands out the raw bytes; its doc comment (shared with `var`) also mentions a
+    // not-UTF-8 error, so for a non-UTF-8 value of the RIGHT entry both outcomes are accepted there
+    let ok = *obs == expected
+        || (!is_str_api && *obs == Look::NotUnicode && matches!(&expected, Look::Value(v) if std::str::from_utf8(v).is_err()));
+    if ok {
+        return;
+    }
+    let shown_env: Vec<String> = envp.iter().map(|e| format!("\"{}\"", escape(e))).collect();
+    let what = format!(
+        "[{mode}] {api}(\"{}\") returned {} but the first entry whose name equals the key gives {}; envp = [{}]",
+        escape(key),
+        obs.show(),
+        expected.show(),
+        shown_env.join(", ")
+    );
+    // name the shape
+    if let Some((val, proper)) = prefix_accepting_lookup(envp, key) {
+        let as_obs = if is_str_api && std::str::from_utf8(val).is_err() { Look::NotUnicode } else { Look::Value(val.to_vec()) };
+        if proper && as_obs == *obs {
+            fails.push(Failure::new(format!("{api}|wrong-entry|entry name is a proper prefix of the key"), what));
+            return;
+        }
+    }
+    let shape = match (&expected, obs) {
+        (Look::Value(_), Look::Value(o)) => {
+            let later_dup = envp.iter().filter_map(|e| split_entry(e)).filter(|(n, _)| *n == key).skip(1).any(|(_, v)| v == o.as_slice());
+            if later_dup {
+                "value of a later duplicate".to_string()
+            } else {
+                "different value".to_string()
+            }
+        }
+        (e, o) => format!("expected {} got {}", e.kind(), o.kind()),
+    };
+    fails.push(Failure::new(format!("{api}|wrong-result|{shape}"), what));
+}
+
+/// All deviations of one probe run from the model, most specific first; prefix-defect lookups last.
+fn judge(case_argv: &[Vec<u8>], envp: &[Vec<u8>], keys: &[Vec<u8>], path: &str, mode: &str, e: &Echo, scope: Scope, ids: (u32, u32)) -> Vec<Failure> {
+    let mut f: Vec<Failure> = Vec::new();
+    if scope == Scope::All {
+        let argc = case_argv.len() as u64;
+        if e.len_hint != argc {
+            f.push(Failure::new("env::args_os|wrong-count|len() != argc", format!("[{mode}] args_os().len() = {} but {} arguments were passed", e.len_hint, argc)));
+        }
+        if e.args_os_n != argc || e.args_os.len() as u64 != argc {
+            f.push(Failure::new(
+                "env::args_os|wrong-count|yielded != argc",
+                format!("[{mode}] args_os() yielded {} elements but {} arguments were passed", e.args_os_n, argc),
+            ));
+        }
+        for (i, (got, want)) in e.args_os.iter().zip(case_argv.iter()).enumerate() {
+            if got != want {
+                f.push(Failure::new(
+                    "env::args_os|wrong-bytes|argument differs",
+                    format!("[{mode}] args_os()[{i}] = \"{}\" ({} bytes) but \"{}\" ({} bytes) was passed", escape(&got[..got.len().min(80)]), got.len(), escape(&want[..want.len().min(80)]), want.len()),
+                ));
+                break;
+            }
+        }
+        if e.args_n != argc || e.args.len() as u64 != argc {
+            f.push(Failure::new("env::args|wrong-count|yielded != argc", format!("[{mode}] args() yielded {} elements but {} arguments were passed", e.args_n, argc)));
+        }
+        for (i, (got, want)) in e.args.iter().zip(case_argv.iter()).enumerate() {
+            let want_ok = std::str::from_utf8(want).is_ok();
+            match got {
+                Some(s) if !want_ok => {
+                    f.push(Failure::new("env::args|wrong-result|Ok for a non-UTF-8 argument", format!("[{mode}] args()[{i}] = Ok(\"{}\") for the non-UTF-8 argument \"{}\"", escape(s), escape(want))));
+                    break;
+                }
+                None if want_ok => {
+                    f.push(Failure::new("env::args|wrong-result|Err for a UTF-8 argument", format!("[{mode}] args()[{i}] = Err for the UTF-8 argument \"{}\"", escape(&want[..want.len().min(80)]))));
+                    break;
+                }
+                Some(s) if s != want => {
+                    f.push(Failure::new("env::args|wrong-bytes|argument differs", format!("[{mode}] args()[{i}] = \"{}\" but \"{}\" was passed", escape(&s[..s.len().min(80)]), escape(&want[..want.len().min(80)]))));
+                    break;
+                }
+                _ => {}
+            }
+        }
+        // aux values against the kernel's own record (/proc/self/auxv as read by the probe)
+        let at_uid = aux_value(&e.auxv, AT_UID);
+        let at_gid = aux_value(&e.auxv, AT_GID);
+        if e.auxv.is_empty() || e.auxv.len() % 16 != 0 {
+            f.push(Failure::new(format!("probe-env|unreadable auxv|{mode}"), format!("[{mode}] /proc/self/auxv gave {} bytes", e.auxv.len())));
+        } else {
+            if at_uid.map(|v| v as u32 as u64) != Some(e.uid) {
+                f.push(Failure::new("aux::get_uid|mismatch|AT_UID", format!("[{mode}] get_uid() = {} but AT_UID = {:?}", e.uid, at_uid)));
+            }
+            if at_gid.map(|v| v as u32 as u64) != Some(e.gid) {
+                f.push(Failure::new("aux::get_gid|mismatch|AT_GID", format!("[{mode}] get_gid() = {} but AT_GID = {:?}", e.gid, at_gid)));
+            }
+            // what the driver arranged (inherited ids, or setgid/setuid before execve)
+            if at_uid == Some(ids.0 as u64) && e.uid != ids.0 as u64 {
+                f.push(Failure::new("aux::get_uid|mismatch|real uid", format!("[{mode}] get_uid() = {} but the process runs as uid {}", e.uid, ids.0)));
+            }
+            if at_gid == Some(ids.1 as u64) && e.gid != ids.1 as u64 {
+                f.push(Failure::new("aux::get_gid|mismatch|real gid", format!("[{mode}] get_gid() = {} but the process runs as gid {}", e.gid, ids.1)));
+            }
+            match (aux_value(&e.auxv, AT_RANDOM), &e.random, &e.random_at) {
+                (Some(addr), Some(r), Some(at)) if addr != 0 => {
+                    if r != at {
+                        f.push(Failure::new("aux::get_random|mismatch|AT_RANDOM bytes", format!("[{mode}] get_random() bytes {:02x?} but the 16 bytes at AT_RANDOM ({addr:#x}) are {:02x?}", r, at)));
+                    }
+                }
+                (Some(addr), None, _) if addr != 0 => {
+                    f.push(Failure::new("aux::get_random|mismatch|None although AT_RANDOM present", format!("[{mode}] get_random() = None but AT_RANDOM = {addr:#x}")));
+                }
+                (None, Some(r), _) => {
+                    f.push(Failure::new("aux::get_random|mismatch|Some although AT_RANDOM absent", format!("[{mode}] get_random() = {:02x?} but the aux vector has no AT_RANDOM", r)));
+                }
+                _ => {}
+            }
+            match (aux_value(&e.auxv, AT_EXECFN), &e.execfn, &e.execfn_at) {
+                (Some(addr), Some(g), Some(at)) if addr != 0 => {
+                    if g != at {
+                        f.push(Failure::new("aux::get_exec_fn|mismatch|AT_EXECFN string", format!("[{mode}] get_exec_fn() = \"{}\" but the string at AT_EXECFN is \"{}\"", escape(g), escape(at))));
+                    } else if g.as_slice() != path.as_bytes() {
+                        f.push(Failure::new("aux::get_exec_fn|mismatch|executed path", format!("[{mode}] get_exec_fn() = \"{}\" but \"{}\" was executed", escape(g), path)));
+                    }
+                }
+                (Some(addr), None, _) if addr != 0 => {
+                    f.push(Failure::new("aux::get_exec_fn|mismatch|None although AT_EXECFN present", format!("[{mode}] get_exec_fn() = None but AT_EXECFN = {addr:#x}")));
+                }
+                (None, Some(g), _) => {
+                    f.push(Failure::new("aux::get_exec_fn|mismatch|Some although AT_EXECFN absent", format!("[{mode}] get_exec_fn() = \"{}\" but the aux vector has no AT_EXECFN", escape(g))));
+                }
+                _ => {}
+            }
+        }
+        // clock: (sec, nsec) of syscall, now(), syscall
+        let t = |i: usize| (e.clock[2 * i], e.clock[2 * i + 1]);
+        let (t0, tn, t1) = (t(0), t(1), t(2));
+        if !(0..1_000_000_000).contains(&tn.1) {
+            f.push(Failure::new("MonotonicInstant::now|malformed|nanoseconds out of range", format!("[{mode}] now() = {tn:?}")));
+        } else if tn < t0 {
+            f.push(Failure::new("MonotonicInstant::now|outside-bracket|earlier than the preceding clock_gettime syscall", format!("[{mode}] syscall {t0:?}, now() {tn:?}, syscall {t1:?}")));
+        } else if tn > t1 {
+            f.push(Failure::new("MonotonicInstant::now|outside-bracket|later than the following clock_gettime syscall", format!("[{mode}] syscall {t0:?}, now() {tn:?}, syscall {t1:?}")));
+        }
+    }
+    // lookups
+    if e.lookups.len() != keys.len() || e.lookups.iter().zip(keys).any(|(l, k)| l.0 != *k) {
+        f.push(Failure::new(format!("probe-env|malformed output|{mode}"), format!("[{mode}] the probe echoed {} keys for {} sent, or different ones", e.lookups.len(), keys.len())));
+        return f;
+    }
+    let mut look_fails = Vec::new();
+    for (k, u, v) in &e.lookups {
+        if scope != Scope::Var {
+            judge_lookup("env::var_unix", envp, k, u, false, mode, &mut look_fails);
+        }
+        if scope != Scope::VarUnix && std::str::from_utf8(k).is_ok() {
+            judge_lookup("env::var", envp, k, v, true, mode, &mut look_fails);
+        }
+    }
+    // other lookup failures before the proper-prefix shape
+    look_fails.sort_by_key(|x| x.sig == SIG_PREFIX_VAR || x.sig == SIG_PREFIX_VAR_UNIX);
+    f.extend(look_fails);
+    f
+}
+
+fn suppressed(ctx: &Ctx, sig: &str) -> Option<&'static str> {
+    if ctx.known.iter().any(|k| k.signature == sig || (k.signature.ends_with('*') && sig.starts_with(&k.signature[..k.signature.len() - 1]))) {
+        return Some("known");
+    }
+    if ctx.stats.borrow().failures.iter().any(|f| f["signature"] == sig) {
+        return Some("reported");
+    }
+    None
+}
+
+/// Execute the case on each of its builds and judge it.
+pub fn run_case(env: &Env, c: &Case, scope: Scope) -> CaseResult {
+    let ctx = env.ctx;
+    let argv: Vec<Vec<u8>> = c.argv.iter().map(|a| strip_nul(&a.bytes())).collect();
+    let envp: Vec<Vec<u8>> = c.envp.iter().map(|e| strip_nul(&e.0)).collect();
+    let keys: Vec<Vec<u8>> = c.keys.iter().map(|k| k.0.iter().copied().filter(|&b| b != 0 && b != b'=').collect::<Vec<u8>>()).filter(|k: &Vec<u8>| !k.is_empty()).collect();
+    let mut rep = CaseReport::new();
+    if argv.is_empty() {
+        return Ok(rep); // only reachable from a hand-written replay file
+    }
+    let mut stdin = Vec::new();
+    for k in &keys {
+        stdin.extend_from_slice(&(k.len() as u32).to_le_bytes());
+        stdin.extend_from_slice(k);
+    }
+
+    // ---- classes (properties of the input, judged by the model)
+    let names: Vec<&[u8]> = envp.iter().filter_map(|e| split_entry(e)).map(|(n, _)| n).collect();
+    let mut ext = false;
+    let mut pre = false;
+    let mut dup = false;
+    for k in &keys {
+        ext |= names.iter().any(|n| !n.is_empty() && n.len() < k.len() && k.starts_with(n));
+        pre |= names.iter().any(|n| n.len() > k.len() && n.starts_with(k));
+        dup |= names.iter().filter(|n| **n == k.as_slice()).count() >= 2;
+        match model_lookup(&envp, k) {
+            Some(v) => {
+                rep.class("lookup-hit");
+                rep.class_if(v.is_empty(), "empty-value");
+                rep.class_if(v.contains(&b'='), "value-with-equals");
+                rep.class_if(std::str::from_utf8(v).is_err(), "non-utf8-value");
+            }
+            None => rep.class("lookup-missing"),
+        }
+        rep.class_if(std::str::from_utf8(k).is_err(), "non-utf8-key");
+        rep.class_if(envp.iter().any(|e| !e.contains(&b'=') && e == k), "key-equals-entry-without-equals");
+    }
+    rep.class_if(ext, "key-is-proper-extension-of-a-name");
+    rep.class_if(pre, "key-is-proper-prefix-of-a-name");
+    rep.class_if(dup, "duplicate-name");
+    rep.class_if(envp.iter().any(|e| !e.is_empty() && !e.contains(&b'=')), "entry-without-equals");
+    rep.class_if(envp.iter().any(|e| e.is_empty()), "empty-entry");
+    rep.class_if(envp.iter().any(|e| e.first() == Some(&b'=')), "entry-with-empty-name");
+    rep.class_if(envp.is_empty(), "empty-environment");
+    rep.class_if(envp.len() >= 30, "large-environment");
+    let non_utf8_arg = argv.iter().any(|a| std::str::from_utf8(a).is_err());
+    rep.class_if(non_utf8_arg, "non-utf8-argument");
+    rep.class_if(argv.iter().skip(1).any(|a| a.is_empty()), "empty-argument");
+    rep.class_if(argv[0].is_empty(), "empty-argv0");
+    rep.class_if(argv.iter().any(|a| a.len() >= 65_535), "long-argument");
+    rep.class_if(argv.iter().any(|a| a.len() == gen::MAX_ARG as usize), "longest-possible-argument");
+    rep.class_if(argv.len() == 1, "argv0-only");
+    rep.class_if(argv.len() >= 31, "many-arguments");
+    rep.nontrivial_if(ext || pre || dup || non_utf8_arg);
+    rep.distinct_key = Some(hash_of(&(&c.argv, &c.envp, &c.keys)));
+
+    // ---- execute
+    let own = unsafe { (libc::getuid(), libc::getgid()) };
+    let set_ids = if env.root { c.ids } else { None };
+    let run_ids = set_ids.unwrap_or(own);
+    rep.class_if(set_ids.is_some(), "runs-as-other-uid-gid");
+    rep.class_if(run_ids.0 != run_ids.1, "uid-differs-from-gid");
+    let mut fails: Vec<Failure> = Vec::new();
+    let mut done = [false; 6];
+    for &b in &c.builds {
+        let b = b as usize;
+        if b >= 6 || done[b] {
+            continue;
+        }
+        done[b] = true;
+        let mode = MODES[b];
+        let path = probe_path(&env.probe_dir, b);
+        let o = match launch::run(&path, &argv, &envp, &stdin, Duration::from_secs(20), set_ids) {
+            Ok(o) => o,
+            Err(launch::LaunchError::Spawn(errno, what)) => {
+                eprintln!("[C07] {what} of {path} failed with errno {errno}: case skipped");
+                ctx.inconclusive();
+                continue;
+            }
+        };
+        rep.class(BUILD_CLASS[b]);
+        if o.timed_out {
+            // a hang is never a violation by itself
+            eprintln!("[C07] probe {mode} exceeded the time limit: inconclusive");
+            ctx.inconclusive();
+            continue;
+        }
+        let stderr = String::from_utf8_lossy(&o.stderr[..o.stderr.len().min(300)]).into_owned();
+        if let Some(sig) = o.signal {
+            fails.insert(0, Failure::new(format!("probe-env|probe crashed|{mode}"), format!("[{mode}] probe killed by signal {sig} after {} bytes of output; stderr: {stderr}", o.stdout.len())));
+            continue;
+        }
+        match o.exit {
+            Some(0) => {}
+            Some(code @ 90..=96) => {
+                // the probe's own I/O failed (pipe, /proc): environment, not the property
+                eprintln!("[C07] probe {mode} could not do its I/O (exit {code}): inconclusive");
+                ctx.inconclusive();
+                continue;
+            }
+            other => {
+                fails.insert(0, Failure::new(format!("probe-env|probe crashed|{mode}"), format!("[{mode}] probe exited with {other:?} after {} bytes of output; stderr: {stderr}", o.stdout.len())));
+                continue;
+            }
+        }
+        match parse(&o.stdout) {
+            Ok(e) => fails.extend(judge(&argv, &envp, &keys, &path, mode, &e, scope, run_ids)),
+            Err(why) => fails.push(Failure::new(format!("probe-env|malformed output|{mode}"), format!("[{mode}] exit 0 but {why}"))),
+        }
+    }
+    // the proper-prefix lookups go last whatever build they came from
+    fails.sort_by_key(|x| x.sig == SIG_PREFIX_VAR || x.sig == SIG_PREFIX_VAR_UNIX);
+
+    // In the full sub-check a proper-prefix mismatch that is already on record (known finding, or
+    // reported by the focused sub-check of this very run) is counted, not reported again, so
+    // that the search continues behind it.
+    if scope == Scope::All {
+        let mut kept = Vec::new();
+        for fl in fails {
+            if fl.sig == SIG_PREFIX_VAR || fl.sig == SIG_PREFIX_VAR_UNIX {
+                match suppressed(ctx, &fl.sig) {
+                    Some("known") => {
+                        rep.class("prefix-defect-known");
+                        if env.target.borrow().is_none() {
+                            let mut st = ctx.stats.borrow_mut();
+                            let key = ctx.known.iter().find(|k| k.signature == fl.sig).map(|k| k.signature.clone()).unwrap_or_else(|| fl.sig.clone());
+                            *st.known_hits.entry(key).or_insert(0) += 1;
+                        }
+                        continue;
+                    }
+                    Some(_) => {
+                        rep.class("prefix-defect-already-reported-by-lookup-subcheck");
+                        continue;
+                    }
+                    None => {}
+                }
+            }
+            kept.push(fl);
+        }
+        fails = kept;
+    }
+
+    if fails.is_empty() {
+        return Ok(rep);
+    }
+    let mut target = env.target.borrow_mut();
+    match &*target {
+        None => {
+            let first = fails.swap_remove(0);
+            if ctx.known.iter().all(|k| k.signature != first.sig) {
+                *target = Some(first.sig.clone());
+            }
+            Err(first)
+        }
+        Some(t) => match fails.into_iter().find(|x| &x.sig == t) {
+            // shrinking: stay on the failure that was found first
+            Some(fl) => Err(fl),
+            None => Ok(rep),
+        },
+    }
+}
+
+pub fn run(ctx: &Ctx) {
+    let root = vh::runner::verif_root();
+    for b in 0..6 {
+        let p = probe_path(&root, b);
+        if !std::path::Path::new(&p).exists() {
+            eprintln!("[C07] probe binary {p} is missing (run lib/build_probes.py probe-env)");
+            std::process::exit(3);
+        }
+    }
+    ctx.extra("probe", serde_json::json!(format!("{root}/probes/env (probe-env), builds: {}", MODES.join(" "))));
+    let thorough = ctx.thorough();
+    // changing the probe's ids needs root and a probe that other users may execute: try once
+    let is_root = unsafe { libc::geteuid() } == 0
+        && matches!(launch::run(&probe_path(&root, 3), &[b"probe-env".to_vec()], &[], &[], Duration::from_secs(20), Some((4242, 2424))), Ok(o) if o.exit == Some(0));
+    ctx.extra("probe_ids", serde_json::json!(if is_root { "driver is root: 3 cases in 4 run the probe under generated uid/gid (fork+setgid+setuid+execve)" } else { "driver ids inherited (posix_spawn only)" }));
+
+    // focused lookups first: what they report, the full sub-check does not report again
+    let env = Env { ctx, probe_dir: root.clone(), root: is_root, target: RefCell::new(None) };
+    ctx.run_prop_opts("lookup-var", ctx.cases(150, 3000), 600, lookup_case(thorough), |c: &Case| run_case(&env, c, Scope::Var));
+    let env = Env { ctx, probe_dir: root.clone(), root: is_root, target: RefCell::new(None) };
+    ctx.run_prop_opts("lookup-var-unix", ctx.cases(150, 3000), 600, lookup_case(thorough), |c: &Case| run_case(&env, c, Scope::VarUnix));
+    let env = Env { ctx, probe_dir: root, root: is_root, target: RefCell::new(None) };
+    ctx.run_prop_opts("startup", ctx.cases(1200, 30_000), 1500, startup_case(thorough), |c: &Case| run_case(&env, c, Scope::All));
+}
